@@ -138,8 +138,8 @@ class SafeLearner(Learner):
                     raise bad_len_ap(ap)
                 return 'AP*'
 
-        if no_len(std_pred) or isinstance(std_pred,str):
-            #action
+        if no_len(std_pred) or isinstance(std_pred,(str,dict)):
+            #action (a dict without a format hint is a sparse action whatever its number of features)
             std_pred = [std_pred]
         elif len(std_pred) != 2:
             #pmf or action
